@@ -280,16 +280,6 @@ func runX(s XScript) (nontrivial bool, key string, f *vt.Finding) {
 		cX.Exclude("discard:" + w.discard)
 		return false, key, nil
 	}
-	if s.Probe == "" {
-		for _, e := range exps {
-			if e.res.KnownA {
-				// listed finding escaped-ref-rewritten: the rewritten text can form references nobody wrote
-				// (even self-references that never terminate), so the shape is not run in the main pass
-				cX.Exclude("escaped-ref-rewritten")
-				return false, key, nil
-			}
-		}
-	}
 	if w.danger != "" && !vt.IsChild() {
 		// listed non-terminating shape: never run in-process
 		cX.Exclude(w.danger)
@@ -319,7 +309,7 @@ func judgeX(s *XScript, w *world, exps []expect) (nontrivial bool, f *vt.Finding
 		cls = append(cls, "two-sources")
 	}
 	definite, may := "", false
-	anyLeak, anyKnownA := false, false
+	anyLeak := false
 	typedIntoString := false
 	for _, e := range exps {
 		if e.res.Err != "" && definite == "" {
@@ -327,7 +317,10 @@ func judgeX(s *XScript, w *world, exps []expect) (nontrivial bool, f *vt.Finding
 		}
 		may = may || e.res.ErrMay
 		anyLeak = anyLeak || e.res.Leak
-		anyKnownA = anyKnownA || e.res.KnownA
+		if e.res.KnownA {
+			// the same reference text occurs unescaped and, later, escaped in one string (repaired finding F-C12-a)
+			cls = append(cls, "same-ref-unescaped-then-escaped")
+		}
 		for _, x := range []string{e.res.TEx, e.res.SEx} {
 			if x != "" {
 				cls = append(cls, "not-asserted:"+x)
@@ -359,17 +352,6 @@ func judgeX(s *XScript, w *world, exps []expect) (nontrivial bool, f *vt.Finding
 		case may:
 			cX.Class("outcome:error-in-unasserted-context")
 			return false, nil
-		case anyKnownA:
-			// the rewritten escaped occurrence can become a reference of its own and fail
-			if !probe {
-				cX.Exclude("escaped-ref-rewritten")
-				return false, nil
-			}
-			ff := vt.Failf("escaped-ref-rewritten", "Resolve failed with %q: the escaped occurrence was rewritten and re-expanded: %v", o.err, s.describe())
-			if soft(cX, ff, *s) {
-				return nontrivial, nil
-			}
-			return nontrivial, ff
 		}
 		return nontrivial, vt.Failf("expand/unexpected-error", "Resolve failed with %q although every reference is resolvable: %v", o.err, s.describe())
 	}
@@ -387,10 +369,6 @@ func judgeX(s *XScript, w *world, exps []expect) (nontrivial bool, f *vt.Finding
 		if !ok {
 			return nontrivial, vt.Failf("expand/tostringmap", "key %q lost: %#v: %v", e.name, o.tsm, s.describe())
 		}
-		if e.res.KnownA && !probe {
-			cX.Exclude("escaped-ref-rewritten")
-			continue
-		}
 		if e.res.Leak && !probe {
 			cX.Exclude("nested-expanded-value")
 			continue
@@ -402,8 +380,6 @@ func judgeX(s *XScript, w *world, exps []expect) (nontrivial bool, f *vt.Finding
 			sig := "expand/tostringmap"
 			if probe && e.res.Leak && leaks(got, "") != "" {
 				sig = "nested-expanded-value/leak"
-			} else if probe && e.res.KnownA {
-				sig = "escaped-ref-rewritten"
 			}
 			ff := vt.Failf(sig, "ToStringMap %s: %v", d, s.describe())
 			if !soft(cX, ff, *s) {
@@ -442,7 +418,7 @@ func judgeX(s *XScript, w *world, exps []expect) (nontrivial bool, f *vt.Finding
 	tv := reflect.ValueOf(tgt)
 	for _, e := range exps {
 		present[e.name] = true
-		if (e.res.KnownA || e.res.Leak) && !probe {
+		if e.res.Leak && !probe {
 			continue
 		}
 		got := fieldOf(tv, e.name)
@@ -478,8 +454,6 @@ func judgeX(s *XScript, w *world, exps []expect) (nontrivial bool, f *vt.Finding
 			sig := "expand/unmarshal/" + e.kind
 			if probe && e.res.Leak {
 				sig = "nested-expanded-value/leak"
-			} else if probe && e.res.KnownA {
-				sig = "escaped-ref-rewritten"
 			}
 			ff := vt.Failf(sig, "Unmarshal %s: %v", d, s.describe())
 			if !soft(cX, ff, *s) {
